@@ -254,14 +254,28 @@ void from_json(const JSON& object, RSCore& core) {
 
 void to_json(JSON& object, const TextInterpretation& text) {
   object = JSON::array();
+  // Note: element identifiers are saved explicitly unless they are 1..N, which is what loading plain names produces
+  int32_t expectedID = 1;
+  bool isSequential = true;
   for (const auto& textElement : text) {
-    object += textElement.second;
+    isSequential = isSequential && textElement.first == expectedID++;
+  }
+  for (const auto& textElement : text) {
+    if (isSequential) {
+      object += textElement.second;
+    } else {
+      object += JSON::array({ textElement.first, textElement.second });
+    }
   }
 }
 
 void from_json(const JSON& object, TextInterpretation& text) {
   for (auto it = begin(object); it != end(object); ++it) {
-    text.PushBack(it->get<std::string>());
+    if (it->is_array()) {
+      text.SetInterpretantFor(it->at(0).get<int32_t>(), it->at(1).get<std::string>());
+    } else {
+      text.PushBack(it->get<std::string>());
+    }
   }
 }
 
